@@ -103,11 +103,13 @@ func (e *Engine) evalClause(st *State, fc *FuncContract, c *Clause, args []Val, 
 	fn := e.genFn(fc, c.Gen)
 	nfacts := len(e.facts)
 	t := e.evalSpecFn(st, fn, args, nil)
-	// facts learnt during evaluation are assumed in the calling state
-	for _, f := range e.facts[nfacts:] {
-		st.assume(f)
-	}
+	// facts learnt during evaluation hold in the calling state (and propagate further up when
+	// the caller is itself a specification being evaluated)
+	fresh := append([]*Term{}, e.facts[nfacts:]...)
 	e.facts = e.facts[:nfacts]
+	for _, f := range fresh {
+		e.fact(st, f)
+	}
 	return t
 }
 
